@@ -401,6 +401,13 @@ def listing(chk, P):
     extra = [k for k in listed if k not in ["%s:%s" % (s_, key) for s_, o in allsecs.items() for key in o]]
     chk.ob("C14.O4", "nothing is listed that is not an item of the file", not extra, site=site, found=extra or None, expect="no extra items",
            key="C14.O4|no-extra")
+    # --list-item-labels: the same items, labels only
+    r, printed2, out2 = _potable_query(P, text, list_item_labels=TRUE)
+    normal2 = r.raised is None and not r.parser.errors and isinstance(r.exit, Num) and r.exit.const() == 0
+    want_labels = "".join(ln.partition("=")[0] + "\n" for ln in lines[:-1])
+    chk.ob("C14.O4", "--list-item-labels prints the label of every listed item, one per line, and ends normally", normal2 and printed2 == want_labels,
+           site=site, found=(printed2 if printed2 is not None else out2, r.raised, r.parser.errors, r.exit), expect=want_labels[:120],
+           key="C14.O4|list-item-labels")
     # --item-value
     for label, want in (("Pair:A-B", "as.zero"), ("Table-Form:t:x", "1 2"), ("Variables:q", "1.0")):
         r, printed, out = _potable_query(P, text, item_value=ListV([Const(label)], "list"))
